@@ -7,10 +7,12 @@ PARTIAL = ["the model theorems cover every route the property lists: constructor
 COQ_IMPORTS = ["RM.Types", "RMR.RunV"]
 COQ_FN = "RunV.run_c01"
 COQ_CASE_TY = "(ty * val)"
-NAMES = ["P:root_constructor", "P:root_decoded", "P:root_from_obj", "P:root_default_then_mutated"]
+NAMES = ["P:root_constructor", "P:root_decoded", "P:root_from_obj", "P:root_default_then_mutated", "P:root_default_sparsely_mutated"]
 RULE = ("random type expressions (10 kinds, nesting <= 3, lengths/limits from chunk / power-of-two boundary sets, up "
         "to 2^40) x random values (boundary lengths, all-zero/all-one/random content) x routes {constructor, "
-        "decode_bytes(encode_bytes), from_obj(to_obj)}; non-trivial = composite type and non-zero value")
+        "decode_bytes(encode_bytes), from_obj(to_obj), default mutated element by element into the value, default with "
+        "only the NON-ZERO fields / elements / bits assigned (zero sub-values keep their default backing)}; "
+        "non-trivial = composite type and non-zero value")
 
 
 def gen_inputs(ctx):
@@ -46,12 +48,46 @@ def mutate_into(t, v):
     return x
 
 
+def mutate_sparse(t, v):
+    """start from the default value and assign only what differs from the zero value: every zero field / element /
+    union value keeps the backing that default_node() built for it"""
+    C = T(t)
+    k = t[0]
+    if is_basic(t) or k in ("bytevec", "bytelist"):
+        return to_py(t, v)
+    x = C()
+    if k == "bitvec":
+        for i, c in enumerate(v):
+            if c == "1":
+                x[i] = True
+    elif k == "bitlist":
+        for c in v:
+            x.append(c == "1")
+    elif k == "vec":
+        for i, e in enumerate(v):
+            if e != zero_value(t[1]):
+                x[i] = mutate_sparse(t[1], e)
+    elif k == "list":
+        for e in v:
+            x.append(mutate_sparse(t[1], e))
+    elif k == "cont":
+        for i, (f, e) in enumerate(zip(t[1], v)):
+            if e != zero_value(f):
+                setattr(x, "f%d" % i, mutate_sparse(f, e))
+    elif k == "union":
+        if v != zero_value(t):
+            sel, e = v
+            o = union_opt(t, sel)
+            x.change(selector=sel, value=None if o is None else mutate_sparse(o, e))
+    return x
+
+
 def build(inp):
     t, v = inp["t"], inp["v"]
     C = T(t)
     x = attempt(lambda: to_py(t, v), anyerr=True)
     if isinstance(x, E):
-        obs = [x, x, x, x]
+        obs = [x, x, x, x, x]
     else:
         r1 = attempt(lambda: x.hash_tree_root(), anyerr=True)
         if is_basic(t):
@@ -64,5 +100,6 @@ def build(inp):
         r2 = attempt(dec, anyerr=True)
         r3 = attempt(lambda: C.from_obj(x.to_obj()).hash_tree_root(), anyerr=True)
         r4 = attempt(lambda: mutate_into(t, v).hash_tree_root(), anyerr=True)
-        obs = [r1, r2, r3, r4]
+        r5 = attempt(lambda: mutate_sparse(t, v).hash_tree_root(), anyerr=True)
+        obs = [r1, r2, r3, r4, r5]
     return Case(inp, "(%s, %s)" % (ty_coq(t), val_coq(t, v)), obs, NAMES, nontrivial=nontrivial_tv(t, v), kind=t[0])
